@@ -182,6 +182,7 @@ Inductive opname :=
 | OIsEmpty | ODimension | OEnvelope | OArea | OLength | OCentroid | OConvexHull | OBoundary
 | OPointOnSurface | OIsSimple | ODumpCoordinates | OReverse | OForce2D | OValidate
 | OMinAreaRect | OMinWidthRect | OUnaryUnion
+| OForceCW | OForceCCW | OIsCW | OIsCCW | OTransformXY | ODensify | OSimplify | OSnapToGrid
 (* codecs: encode then decode *)
 | OWKB | OWKT | OGeoJSON | OTWKB
 (* binary, symmetric emptiness patterns handled by [which] below *)
@@ -240,6 +241,12 @@ Definition neutral (o : opname) (w : which) : answer :=
   | OReverse, _ => ASame
   | OForce2D, _ => ASameForce2D
   | OValidate, _ => ANoError
+  (* type_*.go:ForceCW / ForceCCW / TransformXY / Densify / SnapToGrid: nothing to change *)
+  | OForceCW, _ | OForceCCW, _ | OTransformXY, _ | ODensify, _ | OSnapToGrid, _ => ASame
+  (* alg_simplify.go: members that collapse (empty ones do) are dropped from Multi* - an empty geometry of the same type *)
+  | OSimplify, _ => AEmptyGeometry
+  (* type_*.go:IsCW / IsCCW: no ring violates the orientation *)
+  | OIsCW, _ | OIsCCW, _ => ABool true
   (* alg_rotating_calipers.go: `hull := g.ConvexHull(); if hull.IsEmpty() { return hull }` - "the
      empty geometry of the same type is returned" *)
   | OMinAreaRect, _ => ASameForce2D
